@@ -28,6 +28,8 @@ def _leaf(fn):
 
 
 def run(ctx, obs):
+    from ..rules import sweeps
+    sweeps.run(ctx, obs, 'C18')
     nd(ctx, obs)
     same_signal(ctx, obs)
     additive(ctx, obs)
@@ -101,6 +103,33 @@ def same_signal(ctx, obs, rule='SAME'):
             and isinstance(g.test.operand, ast.Name) and g.test.operand.id == 'use_same_signal'
         obs.check(ok, rule, q, 'a fresh signal is drawn per simulation unless use_same_signal',
                   f'in-loop make_signal is guarded by `{norm(g.test) if g is not None else None}`', '', where(prog, f, c))
+    # the signal read inside the loop is always a make_signal result: no in-place edit / rebinding of the (possibly shared) signal
+    r = ctx.dep.result(q)
+    sig_vars = {d.var for d in r.defs.values() if d.kind == 'assign' and isinstance(d.rhs, ast.Call) and _leaf(d.rhs.func) == 'make_signal'}
+    nloads = 0
+    for n in ast.walk(lp):
+        if isinstance(n, ast.Name) and isinstance(n.ctx, ast.Load) and n.id in sig_vars:
+            nloads += 1
+            bad_defs = [r.defs[i] for i in r.load_defs.get(id(n), ()) if not (r.defs[i].kind == 'assign' and isinstance(r.defs[i].rhs, ast.Call)
+                                                                             and _leaf(r.defs[i].rhs.func) == 'make_signal')]
+            obs.check(not bad_defs, rule, q, f'the signal `{n.id}` read in the loop is an unmodified make_signal result',
+                      (f'line {bad_defs[0].node.lineno}: `{norm(bad_defs[0].node)[:80]}` changes the signal between simulations: with '
+                       f'use_same_signal the change accumulates over iterations') if bad_defs else '', '', where(prog, f, n))
+    for n in ast.walk(lp):
+        tgt = None
+        if isinstance(n, ast.Assign) and isinstance(n.targets[0], ast.Subscript):
+            tgt = n.targets[0]
+        elif isinstance(n, ast.AugAssign) and isinstance(n.target, ast.Subscript):
+            tgt = n.target
+        if tgt is not None:
+            root = tgt
+            while isinstance(root, (ast.Subscript, ast.Attribute)):
+                root = root.value
+            if isinstance(root, ast.Name) and root.id in sig_vars:
+                obs.bad(rule, q, f'the signal `{root.id}` read in the loop is an unmodified make_signal result',
+                        f'`{norm(n)[:80]}` writes into the signal inside the simulation loop', where(prog, f, n))
+    if not sig_vars or not nloads:
+        raise AnalysisError('make_dataset: the variable holding the make_signal result is not read in the loop')
     args = {tuple(norm(a) for a in c.args) for c in calls}
     obs.check(len(args) == 1, rule, q, 'both signal draws use the same arguments', f'{args}', '', where(prog, f, f.node))
     acc_named(ctx, obs, q)
